@@ -35,6 +35,30 @@ class Buf(list):
     pass
 
 
+class PyList(list):
+    """A python list (list display or list comprehension): `+` concatenates, unlike a numpy vector."""
+    pass
+
+
+class _Break(Exception):
+    pass
+
+
+class _Continue(Exception):
+    pass
+
+
+_UNPARSE = {}
+EXTERNAL_CONSTANTS = {
+    'sys.float_info.max': 1.7976931348623157e308, 'sys.float_info.min': 2.2250738585072014e-308, 'sys.float_info.epsilon': 2.220446049250313e-16,
+    'np.finfo(np.float64).max': 1.7976931348623157e308, 'np.finfo(np.float64).min': -1.7976931348623157e308, 'np.finfo(np.float64).tiny': 2.2250738585072014e-308,
+    'np.finfo(float).max': 1.7976931348623157e308, 'np.finfo(float).min': -1.7976931348623157e308, 'np.finfo(float).tiny': 2.2250738585072014e-308,
+    'np.inf': float('inf'), 'numpy.inf': float('inf'), 'math.inf': float('inf'), 'np.nan': float('nan'), 'math.nan': float('nan'),
+    "float('inf')": float('inf'), "float('-inf')": float('-inf'), "float('nan')": float('nan'), '-np.inf': float('-inf'), '-math.inf': float('-inf'),
+    'sys.maxsize': 2 ** 63 - 1,
+}
+
+
 class Gather:
     """self.take(v) / self.data.take(v): the positions v."""
 
@@ -94,7 +118,12 @@ class VecEval:
                 raise Unsupported('loop over a non-sequence')
             for v in it:
                 self.assign(s.target, v)
-                self.block(s.body)
+                try:
+                    self.block(s.body)
+                except _Continue:
+                    continue
+                except _Break:
+                    break
         elif isinstance(s, ast.AugAssign) and type(s.op) in _BIN:
             if isinstance(s.target, ast.Name):
                 cur = self.expr(ast.Name(id=s.target.id, ctx=ast.Load()))
@@ -105,6 +134,27 @@ class VecEval:
             self.assign(s.target, _ew(_BIN[type(s.op)], cur, self.expr(s.value)))
         elif isinstance(s, ast.Pass):
             pass
+        elif isinstance(s, ast.Break):
+            raise _Break()
+        elif isinstance(s, ast.Continue):
+            raise _Continue()
+        elif isinstance(s, ast.While):
+            guard = 0
+            while True:
+                c = self.expr(s.test)
+                if isinstance(c, list):
+                    raise Unsupported('truth value of a vector')
+                if not c:
+                    break
+                guard += 1
+                if guard > 10000:
+                    raise Unsupported('loop bound')
+                try:
+                    self.block(s.body)
+                except _Continue:
+                    continue
+                except _Break:
+                    break
         elif isinstance(s, ast.Raise):
             raise Returned(s, 'raise')
         elif isinstance(s, ast.Assert):
@@ -130,6 +180,13 @@ class VecEval:
                     base[k] = x
             elif isinstance(i, int):
                 base[i] = v
+            elif isinstance(i, slice) and i.step in (None, 1):
+                pos = list(range(*i.indices(len(base))))
+                vals = list(v) if isinstance(v, (list, tuple)) else [v] * len(pos)
+                if len(vals) != len(pos):
+                    raise Unsupported('slice store shape')
+                for k, x in zip(pos, vals):
+                    base[k] = x
             elif isinstance(i, tuple) and len(i) == 2 and isinstance(i[0], int) and isinstance(i[1], slice) and i[1] == slice(None) and isinstance(base[i[0]], list):
                 row = list(v) if isinstance(v, (tuple, list)) else [v] * len(base[i[0]])
                 if len(row) != len(base[i[0]]):
@@ -153,11 +210,30 @@ class VecEval:
                 if isinstance(a, ast.Assign) and len(a.targets) == 1 and isinstance(a.targets[0], ast.Name) and a.targets[0].id == e.id and isinstance(a.value, ast.Constant) \
                         and isinstance(a.value.value, (int, float)):
                     return a.value.value
+                if isinstance(a, ast.Assign) and len(a.targets) == 1 and isinstance(a.targets[0], ast.Name) and a.targets[0].id == e.id and ast.unparse(a.value) in EXTERNAL_CONSTANTS:
+                    return EXTERNAL_CONSTANTS[ast.unparse(a.value)]
             raise Unsupported(f'name {e.id}')
         if isinstance(e, ast.Tuple):
             return tuple(self.expr(x) for x in e.elts)
         if isinstance(e, ast.List):
-            return [self.expr(x) for x in e.elts]
+            return PyList(self.expr(x) for x in e.elts)
+        if isinstance(e, ast.ListComp) and len(e.generators) == 1 and not e.generators[0].is_async:
+            g = e.generators[0]
+            it = self.expr(g.iter)
+            if not isinstance(it, (list, range, tuple)):
+                raise Unsupported('comprehension over a non-sequence')
+            out = PyList()
+            for v in it:
+                self.assign(g.target, v)
+                if all(self.expr(c) for c in g.ifs):
+                    out.append(self.expr(e.elt))
+            return out
+        if isinstance(e, (ast.Attribute, ast.Call, ast.UnaryOp)):
+            t_ = _UNPARSE.get(id(e))
+            if t_ is None:
+                t_ = _UNPARSE[id(e)] = (ast.unparse(e), e)
+            if t_[0] in EXTERNAL_CONSTANTS:
+                return EXTERNAL_CONSTANTS[t_[0]]
         if isinstance(e, ast.JoinedStr):
             return 'str'
         if isinstance(e, ast.Slice):
@@ -221,7 +297,12 @@ class VecEval:
                 left = right
             return res
         if isinstance(e, ast.BinOp) and type(e.op) in _BIN:
-            return _ew(_BIN[type(e.op)], self.expr(e.left), self.expr(e.right))
+            l_, r_ = self.expr(e.left), self.expr(e.right)
+            if isinstance(e.op, ast.Add) and isinstance(l_, PyList) and isinstance(r_, PyList):
+                return PyList(list(l_) + list(r_))
+            return _ew(_BIN[type(e.op)], l_, r_)
+        if isinstance(e, ast.BinOp) and isinstance(e.op, ast.Div):
+            return _ew(lambda a, b: a / b, self.expr(e.left), self.expr(e.right))
         if isinstance(e, ast.IfExp):
             return self.expr(e.body) if self.expr(e.test) else self.expr(e.orelse)
         if isinstance(e, ast.Subscript):
@@ -248,6 +329,18 @@ class VecEval:
                     st = self.expr(e.slice.step) if e.slice.step is not None else None
                     return list(base[lo:hi:st]) if isinstance(base, list) else base[lo:hi:st]
                 i = self.expr(e.slice)
+                if isinstance(i, tuple) and len(i) == 2 and isinstance(base, list) and (not base or isinstance(base[0], list)):
+                    r_, c_ = i
+                    rows = base[r_] if isinstance(r_, slice) else [base[r_]] if isinstance(r_, int) else None
+                    if rows is None:
+                        raise Unsupported('2-d row index')
+                    if isinstance(c_, int):
+                        col = [row[c_] for row in rows]
+                    elif isinstance(c_, slice):
+                        col = [list(row[c_]) for row in rows]
+                    else:
+                        raise Unsupported('2-d column index')
+                    return col if isinstance(r_, slice) else col[0]
                 if isinstance(i, list) and isinstance(base, list):
                     if i and all(isinstance(x, bool) for x in i):
                         return [b for b, m in zip(base, i) if m]
@@ -266,7 +359,9 @@ class VecEval:
                 return 'dtype'
             base = self.expr(e.value) if not (isinstance(e.value, ast.Name) and e.value.id in ('np', 'numpy', 'self', 'pa', 'pd')) else None
             if isinstance(base, list) and e.attr == 'size':
-                return len(base)
+                return len(base) * (len(base[0]) if base and isinstance(base[0], list) else 1)
+            if isinstance(base, list) and e.attr == 'shape':
+                return (len(base), len(base[0])) if base and isinstance(base[0], list) else (len(base),) + ((getattr(self, 'ncols', None),) if not base and getattr(self, 'ncols', None) else ())
             if isinstance(base, list) and e.attr == 'dtype':
                 d_ = Stub()
                 d_.kind = 'b' if base and all(isinstance(x, bool) for x in base) else 'i'
